@@ -673,6 +673,9 @@ func filterRow(f *btpb.RowFilter, r *btpb.Row) (bool, error) {
 		return count > 0, nil
 	case *btpb.RowFilter_CellsPerColumnLimitFilter:
 		lim := int(f.CellsPerColumnLimitFilter)
+		if lim < 0 {
+			return false, status.Errorf(codes.InvalidArgument, "cells_per_column_limit_filter must not be negative")
+		}
 		for _, fam := range r.Families {
 			for _, col := range fam.Columns {
 				if len(col.Cells) > lim {
